@@ -11,6 +11,12 @@ CHECKS = {
     text='Finite domain enumerated completely at the bounds the property names (accept/reject for every string, full minute table for every accepted pattern); or-lists exhaustive over reduced alphabets and sampled over the full set; orders of use sampled. Violations inside the enumerated part cannot be missed; outside it the check is a search.',
     design='DESIGN.md section 3, C11',
     note='Trusts the independent denotation in verif/lang/timepat.py (reviewable, 40 lines) and the RecordingClock that tabulates the object handed to wait_until; "*:*" acceptance not asserted.'),
+ 'C07': dict(
+    technique='exhaustive enumeration of all 65536 raw values per component through get/set scripts, fine logical grids, and Hypothesis-generated mode x value x command-kind scripts, against an exact Fraction reference and a protocol oracle at the lifxlan boundary',
+    category='exploration',
+    text='Raw round trip and the logical grids are enumerated completely; every command kind in every unit mode is sampled with in-range, out-of-range, tie and huge values. Each request is checked for protocol range/type and compared with exact rational arithmetic (nearest integer, both neighbours on ties).',
+    design='DESIGN.md section 3, C07',
+    note='Trusts verif/lang/units_exact.py (Fraction arithmetic) and the SimDevice protocol oracle; rgb values outside 0..100 only range-checked; half-open zone convention of the repository fake (A3).'),
 }
 PENDING_REASON = 'check not built yet in this session; planned as described in DESIGN.md (property-based / fuzzing check, same runner)'
 
